@@ -409,14 +409,16 @@ def rule_sc1(ctx: Ctx):
             if _normal(p):
                 sk_obs_comp.add(tuple(x for x in _skeleton(p, None, False, accvar) if x not in ("store(other:True)", "on_completed")))
         ra.groups.add(("scan siblings", cfg_str(cfg)))
+        # a sibling comparison is no verdict when one of the siblings goes through code the analysis could not resolve
+        unres = next(({"unresolved": ctx.unresolved[s.qualname]} for s in (spec, ospec_next, ospec_comp) if s.qualname in ctx.unresolved), None)
         ra.ob(sk_mux_next == sk_obs_next, lambda: Finding(
             "AG-3", "scan_mux/scan_obs[Next]{%s}" % cfg_str(cfg), ospec_next.module.where(ospec_next.fn),
             "per-item behaviour differs between the multiplexed and the plain scan for %s: mux %s vs plain %s" % (
-                cfg_str(cfg), sorted(sk_mux_next), sorted(sk_obs_next))))
+                cfg_str(cfg), sorted(sk_mux_next), sorted(sk_obs_next)), detail=unres))
         ra.ob(sk_mux_comp == sk_obs_comp, lambda: Finding(
             "AG-3", "scan_mux/scan_obs[Completed]{%s}" % cfg_str(cfg), ospec_comp.module.where(ospec_comp.fn),
             "completion behaviour differs between the multiplexed and the plain scan for %s: mux %s vs plain %s" % (
-                cfg_str(cfg), sorted(sk_mux_comp), sorted(sk_obs_comp))))
+                cfg_str(cfg), sorted(sk_mux_comp), sorted(sk_obs_comp)), detail=unres))
         r.sample({"config": cfg, "next": sorted(map(list, sk_mux_next)), "completed": sorted(map(list, sk_mux_comp))})
     # AG-3b for scan: the plain sibling decides 'no accumulator yet' by a flag of its own (or a private marker), never by looking at
     # the accumulator, which holds user data (an accumulator may legitimately be None / False / 0)
